@@ -23,6 +23,7 @@ from . import sn_common as S
 from .. import common
 
 K8_KEY = 'C06:twice:diff-shape:per-invocation'
+TWICE_INSIDE_KEY = 'C06:layer-twice-inside-branch:per-invocation'
 BAND = Fraction(1, 100000)
 
 
@@ -85,6 +86,9 @@ def _corpus_specs():
     # the K8 witness of DESIGN section 6: conv3x3 block used at two resolutions
     out.append({'C': 4, 'hw': 8, 'wseed': 21, 'fixed_twice': False, 'blocks': [
         {'br': ['conv3', 'conv1'], 'use': 'twice-pool', 'gumbel': False, 'hard_ctor': False, 'post': 'none'}]})
+    # a user block that invokes one of its layers twice
+    out.append({'C': 4, 'hw': 8, 'wseed': 25, 'fixed_twice': False, 'blocks': [
+        {'br': ['ub2x', 'id', 'conv1'], 'use': 'once', 'gumbel': False, 'hard_ctor': False, 'post': 'none'}]})
     # same block, same resolution twice: must hold
     out.append({'C': 4, 'hw': 8, 'wseed': 22, 'fixed_twice': True, 'blocks': [
         {'br': ['conv3', 'conv1', 'id'], 'use': 'twice', 'gumbel': False, 'hard_ctor': False, 'post': 'relu'}]})
@@ -222,17 +226,37 @@ def _work(item):
 
         comb_index = {name: k for k, (name, _) in enumerate(combs)}
 
-        def ref_mix(m, thetas):
-            """Python reference of the mix, independent of plinio's aggregation and of the Lean model."""
-            tot, seen = Fraction(0), set()
+        # every invocation of a branch leaf, by call site of its block (sites are delimited by the
+        # combiner nodes, in trace order)
+        per_site, site_now = {}, {}
+        for i, n in enumerate(nodes):
+            if n.op != 'call_module':
+                continue
+            if n.target in comb_index:
+                par = n.target.rsplit('.', 1)[0]
+                site_now[par] = site_now.get(par, 0) + 1
+            elif '.sn_branches.' in n.target:
+                par, rest = n.target.split('.sn_branches.', 1)
+                per_site.setdefault((par, site_now.get(par, 0), int(rest.split('.')[0])), []).append(i)
+
+        def ref_mix(m, thetas, by_site=False):
+            """Python reference of the mix, independent of plinio's aggregation and of the Lean model.
+            by_site=False: what the code is known to do (every call site of a block charged the unique leaves
+            of the branch at the shape of the FIRST call site - K8); by_site=True: the statement's reading for
+            per-invocation metrics (every invocation of a leaf, at the shape of its own call site)."""
+            tot, seen, k_site = Fraction(0), set(), {}
             for i, n in enumerate(nodes):
                 if n.op != 'call_module' or (SHARED[m] and n.target in seen):
                     continue
                 seen.add(n.target)
                 if n.target in comb_index:
                     parent = n.target.rsplit('.', 1)[0]
+                    k = k_site.get(parent, 0)
+                    k_site[parent] = k + 1
                     for j, t in enumerate(thetas[comb_index[n.target]]):
-                        tot += Fraction(t) * sum((units[m][k] for k in first.get((parent, j), [])), Fraction(0))
+                        leaves = per_site.get((parent, k, j), []) if by_site and not SHARED[m] \
+                            else first.get((parent, j), [])
+                        tot += Fraction(t) * sum((units[m][q] for q in leaves), Fraction(0))
                 elif 'sn_branches' not in n.target and full:
                     tot += units[m][i]
             return tot
@@ -253,6 +277,17 @@ def _work(item):
                 lo_sel.append(min(range(len(bc)), key=lambda j: (bc[j], j)))
                 hi_sel.append(min(range(len(bc)), key=lambda j: (-bc[j], j)))
             ext[m] = (lo_sel, hi_sel)
+        # the same with every invocation counted at its own shape (reading of the statement)
+        ext_true = {}
+        for m in METRIC_NAMES:
+            lo_sel, hi_sel = [], []
+            for (cname, c) in combs:
+                parent = cname.rsplit('.', 1)[0]
+                bc = [sum((units[m][i] for i in (first if SHARED[m] else _sites).get((parent, b), [])), Fraction(0))
+                      for b in range(c.n_branches)]
+                lo_sel.append(min(range(len(bc)), key=lambda j: (bc[j], j)))
+                hi_sel.append(min(range(len(bc)), key=lambda j: (-bc[j], j)))
+            ext_true[m] = (lo_sel, hi_sel)
         real_at = {}
 
         def hard_cost_at(sel):
@@ -263,6 +298,8 @@ def _work(item):
             return real_at[key]
 
         bounds = {m: (hard_cost_at(ext[m][0])[m], hard_cost_at(ext[m][1])[m]) for m in METRIC_NAMES}
+        bounds_oracle = {m: (min(bounds[m][0], hard_cost_at(ext_true[m][0])[m]),
+                             max(bounds[m][1], hard_cost_at(ext_true[m][1])[m])) for m in METRIC_NAMES}
         # exhaustive nets: the true min / max over every selection, on the real implementation
         true_bounds = None
         if item['exhaustive']:
@@ -287,6 +324,8 @@ def _work(item):
             for m in METRIC_NAMES:
                 out['recs'].append({'kind': 'soft', 'full': full, 'metric': m, 'cfg': cfg, 'alphas': alphas,
                                     'thetas': thetas, 'cost': costs[m], 'bounds': bounds[m],
+                                    'bounds_oracle': bounds_oracle[m],
+                                    'ref_mix_by_site': ref_mix(m, thetas, by_site=True),
                                     'true_bounds': true_bounds[m] if true_bounds else None,
                                     'gumbel_active': gumbel_active, 'ref_sampler_ok': ref_ok,
                                     'ref_mix': ref_mix(m, thetas), 'hard_flags': list(hard_now),
@@ -386,11 +425,25 @@ def _judge(spec, rec, model):
             if rec['ref_sampler_ok'] is not None:
                 corr.append(('held coefficients = softmax(alpha/T) (one-hot of it when hard)',
                              'ok' if rec['ref_sampler_ok'] else 'differs', 'ok'))
-        if not (cost == mix if onehot else _in_band(cost, mix)):
-            viol.append(('C06:cost-is-not-the-mix-of-held-coefficients:%s' % ('shared' if SHARED[m] else 'per-invocation'),
-                         'get_cost(%s)=%s but the mix of the coefficients the combiners hold is %s'
-                         % (m, float(cost), float(mix))))
-        lo, hi = rec['bounds']
+        def matches(ref):
+            return cost == ref if onehot else _in_band(cost, ref)
+
+        if not matches(rec['ref_mix_by_site']):
+            kinds = {k for b in spec['blocks'] for k in b['br']}
+            if not SHARED[m] and matches(mix) and any(b['use'] == 'twice-pool' for b in spec['blocks']):
+                viol.append((K8_KEY, 'a block invoked twice at different resolutions is charged the first call '
+                             'site\'s output shape both times: get_cost(%s)=%s, mix with every call site at its '
+                             'own shape %s' % (m, float(cost), float(rec['ref_mix_by_site']))))
+            elif not SHARED[m] and matches(mix) and kinds & S.LAYER_TWICE_INSIDE:
+                viol.append((TWICE_INSIDE_KEY, 'a layer invoked twice inside a branch is charged once by a '
+                             'per-invocation metric (the combiner holds uniquified leaves): get_cost(%s)=%s, mix '
+                             'with every invocation counted %s' % (m, float(cost), float(rec['ref_mix_by_site']))))
+            else:
+                viol.append(('C06:cost-is-not-the-mix-of-held-coefficients:%s'
+                             % ('shared' if SHARED[m] else 'per-invocation'),
+                             'get_cost(%s)=%s but the mix of the coefficients the combiners hold is %s'
+                             % (m, float(cost), float(rec['ref_mix_by_site']))))
+        lo, hi = rec['bounds_oracle']
         if rec['true_bounds'] is not None:
             lo, hi = rec['true_bounds']
         tol = BAND * max(abs(hi), 1)
@@ -418,6 +471,11 @@ def _judge(spec, rec, model):
                 viol.append((K8_KEY, 'a block invoked twice at different resolutions is charged the first call '
                              'site\'s output shape both times: get_cost(%s)=%s, exported network %s'
                              % (m, float(cost), float(want))))
+            elif not SHARED[m] and any(b['br'][w] in S.LAYER_TWICE_INSIDE
+                                       for b, w in zip(spec['blocks'], rec['winners'])):
+                viol.append((TWICE_INSIDE_KEY, 'a layer invoked twice inside the winning branch is charged once by a '
+                             'per-invocation metric (the combiner holds uniquified leaves): get_cost(%s)=%s, exported '
+                             'network %s' % (m, float(cost), float(want))))
             else:
                 viol.append(('C06:hard-cost-differs-from-exported-network:%s' % ('shared' if SHARED[m] else 'per-invocation'),
                              'hard selection: get_cost(%s)=%s (full_cost=%s) but the exported network costs %s'
@@ -531,42 +589,52 @@ def _probe_observations(chk):
     import torch.nn.functional as F
     from plinio.methods import SuperNet
     from plinio.methods.supernet import SuperNetModule
-    from plinio.cost import ops
+    from plinio.cost import params
 
-    class Twice(nn.Module):
-        def __init__(s, c):
-            super().__init__()
-            s.conv = nn.Conv2d(c, c, 3, padding=1)
+    def net(branches, dead_aux=False):
+        class Net(nn.Module):
+            def __init__(s):
+                super().__init__()
+                s.c0 = nn.Conv2d(3, 4, 3, padding=1)
+                s.aux = nn.Conv2d(4, 4, 1) if dead_aux else None
+                s.blk0 = SuperNetModule(branches())
 
-        def forward(s, x):
-            return s.conv(F.relu(s.conv(x)))
+            def forward(s, x):
+                x = F.relu(s.c0(x))
+                if s.aux is not None:
+                    _ = s.aux(x)
+                return s.blk0(x)
+        return Net()
 
-    class Net(nn.Module):
-        def __init__(s):
-            super().__init__()
-            s.c0 = nn.Conv2d(3, 4, 3, padding=1)
-            s.blk0 = SuperNetModule([Twice(4), nn.Identity()])
-
-        def forward(s, x):
-            return s.blk0(F.relu(s.c0(x)))
-
-    try:
-        torch.manual_seed(0)
-        sn = SuperNet(Net(), input_shape=(3, 8, 8), cost=ops, full_cost=True)
-        S.set_alpha(sn, [[1.0, 0.0]])
+    def hard_vs_export(model, alpha):
+        sn = SuperNet(model, input_shape=(3, 8, 8), cost=params, full_cost=True)
+        S.set_alpha(sn, [alpha])
         sn.update_softmax_options(hard=True)
         sn.eval()
         with torch.no_grad():
             sn(torch.zeros(1, 3, 8, 8))
-        e = sn.export()
-        real, want = Fraction(float(sn.cost)), _scratch_cost(e, ops, False)
+        return Fraction(float(sn.cost)), _scratch_cost(sn.export(), params, True)
+
+    def shared_branches():
+        sh = nn.Conv2d(4, 4, 1)
+        return [sh, nn.Sequential(sh, nn.Conv2d(4, 4, 3, padding=1))]
+
+    try:
+        torch.manual_seed(0)
+        real, want = hard_vs_export(net(shared_branches), [0.0, 1.0])
         if real != want:
-            chk.observe('a layer invoked twice INSIDE a branch is charged once by per-invocation metrics '
-                        '(ops %s vs %s on the exported network): same mechanism as K8 (the combiner holds '
-                        'uniquified leaves); outside C06\'s quantifier (blocks invoked once or twice), not '
-                        'generated' % (float(real), float(want)))
+            chk.observe('one layer OBJECT placed in two branches of a block is charged to one branch only (params %s '
+                        'vs %s on the exported network): fx gives a shared object a single qualified name '
+                        '(...sn_branches.0), and branch membership is read off the name; weight sharing between '
+                        'branches is outside C06\'s network family, not generated' % (float(real), float(want)))
+        real, want = hard_vs_export(net(lambda: [nn.Conv2d(4, 4, 3, padding=1), nn.Identity()], dead_aux=True),
+                                    [1.0, 0.0])
+        if real != want:
+            chk.observe('a layer outside choice blocks whose result is unused is charged by full_cost (params %s) '
+                        'but removed by export\'s dead-code pass (%s on the exported network); networks with dead '
+                        'layers are outside the network family, not generated' % (float(real), float(want)))
     except Exception as ex:                                     # noqa: BLE001
-        chk.observe('probe "layer twice inside a branch" could not be run: %s' % type(ex).__name__)
+        chk.observe('observation probes could not be run: %s' % type(ex).__name__)
 
 
 # ----------------------------------------------------------------------------- replay
